@@ -247,8 +247,13 @@ Definition i_apply_op (rp : bool) (fo : fops) (next : Z) (t : inode) (o : ipop) 
     else if op_eqb k OReplace || op_eqb k OAdd || op_eqb k OAddCreate then
       match ip_val o with
       | None => (next, (RcNoValue, t))
-      | Some v => (next, (RcOk, match v with INode _ p kl key ty vi vs ch =>            (* memmove: the whole struct of the value *)
-                                  INode (i_id t) p kl key ty vi vs (if rp then map (iset_par (i_id t)) ch else ch) end))
+      | Some v => (next, (RcOk, icopy_data rp t v))                               (* _jbl_copy_node_data(target, value), ca7f178 *)
+      end
+    else if op_eqb k OMove || op_eqb k OCopy then                                 (* 22df63c: the value at `from` becomes the document *)
+      match ip_from o with
+      | None => (next, (RcPatchInvalid, t))
+      | Some [] => (next, (RcOk, t))
+      | Some f => match i_find t f with None => (next, (RcNotFound, t)) | Some v => (next, (RcOk, icopy_data rp t v)) end
       end
     else (next, (RcOk, t))
   else
@@ -274,6 +279,7 @@ Definition i_apply_op (rp : bool) (fo : fops) (next : Z) (t : inode) (o : ipop) 
         match ip_from o with
         | None => (next, (RcNotFound, t1))
         | Some f =>
+          if seg_nested f path then (next, (RcPatchInvalid, t1)) else               (* da6f72b *)
           match i_find t1 f, i_locate t1 f with
           | Some v, Some pf =>
             match swap_target (iforget t1) path with
